@@ -65,7 +65,29 @@ def run_workers(exe, profile, tier, seed, first, count, outdir, extra=None, nwor
         env = dict(os.environ)
         env["ASAN_OPTIONS"] = "exitcode=77:detect_leaks=0:detect_stack_use_after_return=0:abort_on_error=0:allocator_may_return_null=1"
         env["UBSAN_OPTIONS"] = "print_stacktrace=1:halt_on_error=1:exitcode=77"
-        return subprocess.Popen(args, stdout=subprocess.PIPE, stderr=subprocess.PIPE, env=env, text=True, errors="replace")
+        # output goes to files: reading pipes one worker after the other would stall
+        # every worker but the first as soon as its 64 KiB pipe buffer is full
+        os.makedirs(outdir, exist_ok=True)
+        base = os.path.join(outdir, ".worker_%d_%d_%d" % (os.getpid(), a, n))
+        fo, fe = open(base + ".out", "w+b"), open(base + ".err", "w+b")
+        pr = subprocess.Popen(args, stdout=fo, stderr=fe, env=env)
+        pr._files = (fo, fe, base)
+        return pr
+
+    def finish(pr):
+        pr.wait()
+        fo, fe, base = pr._files
+        res = []
+        for f in (fo, fe):
+            f.seek(0)
+            res.append(f.read().decode("utf-8", "replace"))
+            f.close()
+        for suffix in (".out", ".err"):
+            try:
+                os.unlink(base + suffix)
+            except OSError:
+                pass
+        return res[0], res[1]
 
     for a, n in jobs:
         procs.append([start(a, n), a, n])
@@ -73,7 +95,7 @@ def run_workers(exe, profile, tier, seed, first, count, outdir, extra=None, nwor
     while procs:
         nxt = []
         for p, a, n in procs:
-            out, err = p.communicate()
+            out, err = finish(p)
             done = a
             for ln in out.split("\n"):
                 if not ln.startswith("{"):
